@@ -65,13 +65,14 @@ def classify(ctx: HandlerContext) -> Classification:
     # Words in option position ("-separator -readonly" passes -readonly as a value)
     options = _option_words(tokens)
 
+    # Check for -init (runs a script file - unknown content; its dot-commands are not
+    # held back by -readonly: ".open other.db" reopens read-write)
+    if "-init" in options:
+        return Classification("ask", description="sqlite3 (init script)")
+
     # Check for -readonly or -safe flags - always safe
     if "-readonly" in options or "-safe" in options:
         return Classification("allow", description="sqlite3 (read-only mode)")
-
-    # Check for -init (runs a script file - unknown content)
-    if "-init" in options:
-        return Classification("ask", description="sqlite3 (init script)")
 
     # Extract SQL from command line
     # sqlite3 [OPTIONS] [FILENAME [SQL...]]
